@@ -178,7 +178,27 @@ def print_assumptions(pid, timeout=600):
     return ok and not bad, res, out if not ok else json.dumps(bad)
 
 
-def proofs_status(pid):
+def coqchk(pid, timeout=1500):
+    """Re-checks properties/<pid>.vo and everything it depends on with Coq's independent checker and reads its context
+    summary: no axioms, nothing relying on type-in-type, unsafe fixpoints or assumed positivity.  Returns (ok, summary)."""
+    rc, out = run(["coqchk", "-o", "-silent", "-Q", "theories", "XtModel", "-Q", "properties", "XtProps", "XtProps." + pid],
+                  cwd=COQ, timeout=timeout)
+    summary = {}
+    cur = None
+    for line in out.split("\n"):
+        m = re.match(r"^\* ([^:]+):\s*(.*)$", line)
+        if m:
+            cur = m.group(1).strip()
+            summary[cur] = m.group(2).strip()
+        elif cur and line.strip() and not line.startswith("CONTEXT") and not line.startswith("==="):
+            summary[cur] = (summary[cur] + " " + line.strip()).strip()
+    want = ["Axioms", "Constants/Inductives relying on type-in-type", "Constants/Inductives relying on unsafe (co)fixpoints",
+            "Inductives whose positivity is assumed"]
+    ok = rc == 0 and all(summary.get(k) == "<none>" for k in want)
+    return ok, summary if summary else {"log": out[-1500:]}
+
+
+def proofs_status(pid, thorough=False):
     """Builds the property file and everything it needs, and checks the proof
     hygiene rules.  Returns a dict."""
     t0 = time.time()
@@ -202,6 +222,10 @@ def proofs_status(pid):
     else:
         st["assumptions_ok"] = False
     st["ok"] = bool(ok and not hits and st["assumptions_ok"] and st["theorems"])
+    if thorough and ok:
+        cok, summary = coqchk(pid)
+        st["coqchk"] = {"ok": cok, "summary": summary}
+        st["ok"] = bool(st["ok"] and cok)
     st["discharged"] = n if st["ok"] else 0
     st["wall_s"] = round(time.time() - t0, 2)
     return st
